@@ -446,13 +446,13 @@ const c11defaultLimit = 20 * time.Second
 var c11limit = c11defaultLimit // per-call time limit of c11run
 
 // Hang budget. Under a defect that makes (nearly) every call block, 20 s per call adds up to hours and
-// the check prints no verdict. Every call that did not return is counted; after 3 of them the limit of
-// the ordinary calls (a few milliseconds each on a healthy tree) drops to 3 s, after 12 to 500 ms, and
+// the check prints no verdict. Every call that did not return is counted; after 2 of them the limit of
+// the ordinary calls (a few milliseconds each on a healthy tree) drops to 3 s, after 8 to 500 ms, and
 // the streams stop generating further cases (c11stop): the hangs seen so far are failing inputs already.
 // The large-comparison stream sets its own limit and is not shortened.
 var c11hangs int32
 
-const c11hangBudget = 12
+const c11hangBudget = 8
 
 func c11callLimit() time.Duration {
 	if c11limit != c11defaultLimit {
@@ -461,7 +461,7 @@ func c11callLimit() time.Duration {
 	switch h := atomic.LoadInt32(&c11hangs); {
 	case h >= c11hangBudget:
 		return 500 * time.Millisecond
-	case h >= 3:
+	case h >= 2:
 		return 3 * time.Second
 	}
 	return c11limit
@@ -744,6 +744,7 @@ func c11one(c *Ctx, idx int) {
 	}
 	defer func() { c11problem = nil }()
 	ref := c11compare(l, rt, so, 1, 1)
+	refMissing := undelivered // the sequential run did not return: reported above, nothing to compare with the model
 	refS := c11canon(ids, ref)
 	key := ""
 	check := func(res gedcom.IndividualComparisons, jobs, gmp int) {
@@ -757,7 +758,7 @@ func c11one(c *Ctx, idx int) {
 		if v := c11valid(l, rt, so, res); v != "" {
 			c.Oracle(key, "the result is not a valid one-to-one matching: "+c11class(v), in(jobs, gmp), v+" | result: "+c11canon(ids, res), "every individual in exactly one result")
 		}
-		if s := c11canon(ids, res); s != refS && !ties && !amb {
+		if s := c11canon(ids, res); s != refS && !ties && !amb && !refMissing {
 			c.Oracle("", "without score ties the result differs from the sequential one", in(jobs, gmp), s, refS)
 		}
 	}
@@ -780,11 +781,14 @@ func c11one(c *Ctx, idx int) {
 	reused := gedcom.NewIndividualNodesCompareOptions()
 	reused.SimilarityOptions = so
 	c11compareWith(l, rt, reused, 1, 1)
+	undelivered = false
 	j2 := c11jobs[r.Intn(len(c11jobs))]
 	second := c11compareWith(l, rt, reused, j2, c11gmps[r.Intn(len(c11gmps))])
+	secondMissing := undelivered
+	undelivered = false
 	c.Eval()
 	c.Count("run:second Compare with the same options value")
-	if v := c11valid(l, rt, so, second); v != "" {
+	if v := c11valid(l, rt, so, second); v != "" && !secondMissing {
 		inp := in(j2, 0)
 		inp["history"] = "second Compare of one IndividualNodesCompareOptions value (first: Jobs=1)"
 		c.Oracle(key, "the result is not a valid one-to-one matching: "+c11class(v), inp, v+" | result: "+c11canon(ids, second), "every individual in exactly one result")
@@ -792,10 +796,14 @@ func c11one(c *Ctx, idx int) {
 	// correspondence: the sequential order, and permuted arrival orders
 	reqBase := fmt.Sprintf("match %s %s %s %s %s %s", c11persons(l), c11persons(rt), c11exact(so.PreferPointerAbove),
 		c11exact(so.MinimumWeightedSimilarity), tab(tT), tab(tF))
+	if refMissing {
+		c.Count("case:sequential run not delivered (no model comparison)")
+		return
+	}
 	for _, k := range []int{0, 1, 2 + r.Intn(40)} {
 		c.Tie(fmt.Sprintf("%s %d", reqBase, k), refS)
 	}
-	if j2 <= 1 || !ties {
+	if (j2 <= 1 || !ties) && !secondMissing {
 		c.Tie(fmt.Sprintf("match2%s 0", strings.TrimPrefix(reqBase, "match")), c11canon(ids, second))
 	}
 	c.Nontrivial(refS + "|" + o.wire())
